@@ -151,6 +151,9 @@ func (st *State) evalIdent(x *ast.Ident) Val {
 		return Val{K: KNil}
 	case *types.Var:
 		if v, ok := st.vars[o]; ok {
+			if v.K == KSlice && v.Sort == "promoted" {
+				return st.snapshotPromoted(v, o.Type().Underlying().(*types.Array))
+			}
 			return v
 		}
 		if o.Parent() == o.Pkg().Scope() || (o.Pkg() != nil && o.Pkg() != st.fc.Pkg.Types) {
@@ -475,6 +478,10 @@ func (st *State) evalIndex(x *ast.IndexExpr) Val {
 			return st.eval(x.X)
 		}
 	}
+	if pv, ok := st.promotedVar(x.X); ok {
+		idx := st.eval(x.Index)
+		return st.indexVal(pv, pv.T, idx, x.Pos(), exprStr(x))
+	}
 	base := st.eval(x.X)
 	bt := st.typeOf(x.X)
 	if classify(bt) == tcMap {
@@ -516,8 +523,13 @@ func (st *State) indexVal(base Val, bt types.Type, idx Val, pos token.Pos, what 
 }
 
 func (st *State) evalSliceExpr(x *ast.SliceExpr) Val {
-	base := st.eval(x.X)
+	var base Val
 	bt := st.typeOf(x.X)
+	if pv, ok := st.promotedVar(x.X); ok {
+		base, bt = pv, pv.T
+	} else {
+		base = st.eval(x.X)
+	}
 	var lo, hi, max *Val
 	if x.Low != nil {
 		v := st.eval(x.Low)
